@@ -1,4 +1,5 @@
 import NumbatModel.Lemmas.SyntaxFuel
+import NumbatModel.Lemmas.SyntaxSound
 /-!
 # C10 — parsing follows the documented grammar and precedence table (property theorems)
 
@@ -13,6 +14,10 @@ where the precedence table `infixTable`/`…Level` demands them), `toExpr` (the 
   this fixes precedence and associativity of every pair of constructs at once.
 * `parse_render_expr` — the same for plain ASTs (`ofExpr`), i.e. `parse (render e) = ok e`.
 * `parse_extra_parens` — texts that differ only in redundant parentheses parse to the same tree.
+* `parse_sound`, `parse_sound_top` — whatever the parser accepts is a sentence of the documented BNF
+  (`Derives`, Model/SyntaxGrammar.lean) and the returned tree is the tree of that derivation: nothing outside
+  the grammar is accepted or reinterpreted (newline-free token lists; the BNF does not mention the newlines the
+  parser skips inside brackets).
 -/
 namespace NumbatModel.Syntax
 
@@ -44,6 +49,28 @@ parenthesis nodes parse (from their own renderings) to the same AST. -/
 theorem parse_extra_parens (s₁ s₂ : Surf) (h₁ : s₁.wf = true) (h₂ : s₂.wf = true) (h : noParens s₁ = noParens s₂) :
     parseExpr (render s₁ ++ [tEof]) = parseExpr (render s₂ ++ [tEof]) := by
   rw [parse_render _ h₁, parse_render _ h₂, ← toExpr_noParens s₁, ← toExpr_noParens s₂, h]
+
+/-- **Soundness w.r.t. the documented grammar.**  If the expression parser (any fuel) accepts a prefix of a
+newline-free token list and returns `e`, then the consumed prefix is a sentence of the nonterminal
+`expression` of the BNF and `e` is the tree of a derivation. -/
+theorem parse_sound (n : Nat) (ts : List Token) (e : Expr) (rest : List Token)
+    (hnl : ∀ t ∈ ts, t.kind ≠ .newline) (h : expression n ts = .ok (e, rest)) :
+    ∃ pre, ts = pre ++ rest ∧ Derives 0 pre e :=
+  (all n).expr ts e rest hnl h
+
+/-- the same for the top-level function the driver executes -/
+theorem parse_sound_top (ts : List Token) (e : Expr) (hnl : ∀ t ∈ ts, t.kind ≠ .newline)
+    (h : parseExpr ts = .ok e) : ∃ pre rest, ts = pre ++ rest ∧ peekKind rest = .eof ∧ Derives 0 pre e := by
+  unfold parseExpr at h
+  split at h
+  · cases h
+  · rename_i e1 rest he
+    split at h
+    · rename_i heof
+      injection h with h; subst h
+      obtain ⟨pre, hpre, hd⟩ := parse_sound _ ts e1 rest hnl he
+      exact ⟨pre, rest, hpre, by simpa using heof, hd⟩
+    · cases h
 
 /-! ## non-vacuity: the examples of the property text, as instances -/
 
@@ -85,6 +112,11 @@ example : parseExpr (render (.neg ['-'] (.fact 1 x)) ++ [tEof]) = .ok (.neg (.fa
     parseExpr (render (.pipe x (.call (.ident ['f']) [y])) ++ [tEof]) = .ok (.call (.ident ['f']) [.ident ['y'], .ident ['x']]) ∧
     parseExpr (render (.paren x) ++ [tEof]) = parseExpr (render x ++ [tEof]) :=
   ⟨parse_render _ (by decide), parse_render _ (by decide), parse_extra_parens _ _ (by decide) (by decide) (by simp [noParens])⟩
+/-- `parse_sound` applies to a real run: `x + y * z` is accepted, hence derivable with the returned tree -/
+example : ∃ pre, render (.bin .plus ['+'] x (.bin .multiply ['*'] y z)) ++ [tEof] = pre ++ [tEof] ∧
+    Derives 0 pre (.bin .add (.ident ['x']) (.bin .mul (.ident ['y']) (.ident ['z']))) :=
+  parse_sound _ _ _ _ (by decide)
+    (parse_render_context (.bin .plus ['+'] x (.bin .multiply ['*'] y z)) (by decide) [tEof] (by decide) _ (Nat.le_refl _))
 end Examples
 
 end NumbatModel.Syntax
